@@ -1,5 +1,24 @@
 """Property -> machinery."""
 PROPS = {
+    "C09": {
+        "x": ["harness.hC09"],
+        "extra": ["harness.pC09.run"],
+        "level": "other",
+        "explanation": "Engine X: (S1) inductive step of the hand-written line accounting - from any writer state with "
+                       "line == 1 + newlines written, write_stmnt / write_line / Blk keep the invariant for every "
+                       "statement text incl. embedded newlines, and source_map_add_opcode followed by write_stmnt "
+                       "records exactly the 0-based line and the column where the statement begins (both decompilers); "
+                       "one step covers outputs of any length. (S2) call protocol of the statement-writing handlers that "
+                       "run without graph state. Concrete decompilations of F6 inputs validate the model (E3).",
+        "technique": "CrossHair+z3 symbolic execution of the real writer methods (inductive invariant step) and of the "
+                     "write handlers on recording stand-ins",
+        "level_text": "The invariant step is solver-decided for all statement texts up to the bound from a case-split set "
+                      "of writer states; igraph-driven handlers (if/switch/loop writers) are only covered by the "
+                      "enumerated validation.",
+        "level_note": "Trusted: CrossHair, z3. Shape-dependent errors of igraph-driven handlers are outside the claim.",
+        "assumptions": ["writer states case-split over 5 representative outputs x 4 indents",
+                        "flag_CalcValue/-Variable writers not encoded (Enum construction under CrossHair)"],
+    },
     "C10": {
         "x": ["harness.hC10"],
         "extra": ["harness.pC10.run"],
